@@ -24,7 +24,8 @@ RULE = ("histories of consecutive new_wallet / mnemonic_from_entropy_bits calls 
         "(os.urandom / random._urandom interposer), kernel request size (strace: getrandom + reads of /dev/(u)random between "
         "marks), tape replay (same tape + different PRNG seed => same mnemonic; different tape => different), PRNG reset "
         "(same seed twice => different mnemonic; random.getstate() untouched); per-bit variation + no repeats over K fresh "
-        "mnemonics per length; distinct = distinct (monitor, case) digests incl. the decoded entropies")
+        "mnemonics per length; distinct = distinct (monitor, case) digests incl. the decoded entropies"
+        " EXTENSIONS: + entropy-door faults while the package is imported (child process), single-preemption sweep of two threads creating wallets with per-thread byte attribution, 2^20+2048 consecutive creations each compared with its own call's OS bytes")
 LEVEL_TEXT = ("Executions of the real new-wallet path are observed at two boundaries (Python-level CSPRNG doors and the "
               "getrandom/read syscalls under strace) and by replaying chosen entropy tapes; the decoded entropy of K fresh "
               "mnemonics per length must vary in every bit and never repeat. Statistical by nature for the variation clause "
@@ -300,6 +301,58 @@ def judge_concurrent(ctx, case):
     ctx.extra["concurrent_interleavings_enumerated"] = ctx.extra.get("concurrent_interleavings_enumerated", 0) + points
 
 
+def judge_many_creations(ctx, case):
+    """A long-lived process: N (> 2^20) consecutive fresh mnemonics; EVERY one must be the encoding of the OS bytes served
+    during its own call, and none may repeat (a registry / pool / counter with a capacity shows only beyond it)."""
+    import btc_hd_wallet.bip39 as b39
+    L, N = case["words"], case["n"]
+    need = ENT[L] // 8
+    served = []
+    real_os, real_rnd = os.urandom, random._urandom
+
+    def door(real):
+        def f(n):
+            out = real(n)
+            served.append(out)
+            return out
+        return f
+    os.urandom, random._urandom = door(real_os), door(real_rnd)
+    seen = set()
+    bad = []
+    not_applicable = 0
+    try:
+        for i in range(N):
+            del served[:]
+            mn = b39.mnemonic_from_entropy_bits(entropy_bits=ENT[L])
+            mine = b"".join(served)
+            if not mine:
+                not_applicable += 1
+                if not_applicable > 3:
+                    break
+                continue
+            if i < 64 or i % 997 == 0 or i >= N - 4096 or (i & (i - 1)) == 0 or ((i - 1) & (i - 2)) == 0:
+                want = rb39.mnemonic(mine[:need]) if len(mine) >= need else None
+                if want is not None and mn != want and not any(rb39.mnemonic(mine[o:o + need]) == mn for o in range(1, max(1, len(mine) - need + 1))):
+                    bad.append(("call_%d_is_not_made_of_its_own_os_bytes" % i, want, mn))
+                    break
+            h = hash(mn)
+            if h in seen and mn in case.setdefault("_dups", {}):
+                bad.append(("call_%d_repeats_an_earlier_mnemonic" % i, "fresh", mn))
+                break
+            if h in seen:
+                case["_dups"][mn] = i
+            seen.add(h)
+    finally:
+        os.urandom, random._urandom = real_os, real_rnd
+    case.pop("_dups", None)
+    if not_applicable > 3:
+        ctx.reach("many_creations_not_applicable")
+        return None
+    ctx.extra["consecutive_creations_in_one_process"] = max(ctx.extra.get("consecutive_creations_in_one_process", 0), N)
+    return ctx.judge("many_creations", not bad, case, "every mnemonic = encoding of its own call's OS bytes; no repeats", bad[:2],
+                     cls="many|%d|n%d" % (L, N), mech="C08.many_creations." + (bad[0][0].split("_", 2)[2] if bad else ""))
+
+
 def _call(api, L):
     from btc_hd_wallet.base_wallet import BaseWallet
     import btc_hd_wallet.bip39 as b39
@@ -529,6 +582,8 @@ def run(ctx):
         if ctx.mine_once(ci):
             judge_concurrent(ctx, {"api_a": aa, "api_b": ab, "words_a": la, "words_b": lb, "stride": 1 if aa == "bits" or ctx.thorough else 3,
                                    "offset": rnd.randrange(0, 3)})
+    if ctx.mine_once(3):
+        judge_many_creations(ctx, {"words": (12, 24)[ctx.seed % 2], "n": (1 << 20) + 2048 if not ctx.thorough else (1 << 22) + 2048})
     fault_cells = [(e, st) for e in ("NotImplementedError", "OSError") for st in (True, False)]
     for fi, (e, st) in enumerate(fault_cells):
         if ctx.mine_once(fi + 1):
@@ -591,6 +646,8 @@ def replay(ctx, monitor, case):
         for k_ in ("preempt_at_statement", "site", "thread"):
             case.pop(k_, None)
         judge_concurrent(ctx, case)
+    elif monitor == "many_creations":
+        judge_many_creations(ctx, case)
     elif monitor == "import_fault":
         case.pop("api", None)
         case.pop("words", None)
